@@ -26,8 +26,11 @@ func ZZ_C14_countsMatchEligibleNodes() { zzEligibleWorld("C14.eligible") }
 
 func zzEligibleWorld(prop string) {
 	tpl := zzTplAttr{}
-	if nondet.Bool("tpl.selector") {
+	switch nondet.String("tpl.selector", "none", "value", "empty-value") {
+	case "value":
 		tpl.selector = true
+	case "empty-value": // {k: ""}: matches a node carrying the label with an empty value, not one lacking it
+		tpl.selector, tpl.selectorEmptyValue = true, true
 	}
 	if nondet.Bool("tpl.affinityIn") {
 		tpl.affinityOp = "In"
@@ -42,16 +45,21 @@ func zzEligibleWorld(prop string) {
 		tpl.tolerates = zzLabelKey
 	}
 	a := zzNodeAttr{}
-	switch nondet.String("node0.label", "", "v", "w") {
+	switch nondet.String("node0.label", "", "v", "w", "present-with-empty-value") {
 	case "v":
 		a.label = "v"
 	case "w":
 		a.label = "w"
+	case "present-with-empty-value":
+		a.label = "E"
 	}
 	if nondet.Bool("node0.tainted") {
 		a.taint, a.tKey, a.effect = true, zzLabelKey, corev1.TaintEffectNoSchedule
 	}
 	b := zzNodeAttr{label: "v"}
+	if tpl.selectorEmptyValue {
+		b.label = "E" // node1 stays the plain eligible node
+	}
 	attrs := []zzNodeAttr{a, b}
 
 	c, ds, _, _ := zzStore(0)
